@@ -7,7 +7,8 @@ things mean:
 
   dA   F1: /Encoding /WinAnsiEncoding (the shared table itself), Widths 500 600      F2: /Encoding /H   DW 1000   CS0: 3 components
        F2 alone carries a ToUnicode (CIDs of CODE1, CODE2 -> "T", "U"); F3 is F2 without it
-  dB   F1: BaseEncoding WinAnsi + Differences [65 /Omega],       Widths 700 600      F2: /Encoding /V   (vertical) CS0: 1 component
+  dB   F1: BaseEncoding WinAnsi + Differences [66 /g1234 65 /Omega] (the array STARTS with a glyph name that has no Unicode
+       value: code 66 is removed from the font's table and shows as (cid:66)),  Widths 700 600      F2: /Encoding /V   (vertical) CS0: 1 component
   dC   F1: /WinAnsiEncoding + ToUnicode (66 -> "Y", `/H usecmap`), Widths 500 800    F2: /Encoding /H   DW 400    CS0: not defined
        dC is RC4-encrypted with an empty user password (decipher_all runs on every parsed object)
 
@@ -93,7 +94,7 @@ def objects(d):
     objs[12] = {"Type": Name("FontDescriptor"), "FontName": Name("VerifMincho"), "Flags": 4, "FontBBox": [0, -120, 1000, 880],
                 "ItalicAngle": 0, "Ascent": 880, "Descent": -120, "CapHeight": 700, "StemV": 80}
     if d == "dB":
-        objs[13] = {"Type": Name("Encoding"), "BaseEncoding": Name("WinAnsiEncoding"), "Differences": [C1, Name("Omega")]}
+        objs[13] = {"Type": Name("Encoding"), "BaseEncoding": Name("WinAnsiEncoding"), "Differences": [C2, Name("g1234"), C1, Name("Omega")]}
     else:
         objs[13] = {"Type": Name("Encoding"), "BaseEncoding": Name("WinAnsiEncoding")}
     objs[14] = [Ref(15), w2]
@@ -145,7 +146,7 @@ def token_table(part):
         return {"J11v": uv.get_unichr(h1), "J12v": uv.get_unichr(h2), "J21v": uv.get_unichr(v1)}
     uh = CMapDB.get_unicode_map("Adobe-Japan1", False)
     win = EncodingDB.encodings["WinAnsiEncoding"]
-    return {"A": win[C1], "B": win[C2], "Omega": name2unicode("Omega"), "Y": "Y", "T": "T", "U": "U",
+    return {"A": win[C1], "B": win[C2], "Omega": name2unicode("Omega"), "Y": "Y", "T": "T", "U": "U", "cid?": "(cid:%d)" % C2,
             "J11h": uh.get_unichr(h1), "J12h": uh.get_unichr(h2), "J21h": uh.get_unichr(v1)}
 
 
